@@ -6,7 +6,7 @@ import sys
 sys.path.insert(0, os.path.join(os.path.dirname(os.path.abspath(__file__)), "..", "bind", "py"))
 import machine
 import wasmgen
-from common import SEED, Verdict, main_wrap
+from common import SEED, Verdict, main_wrap, tlc, tlc_ok
 from wasmgen import b32, b64
 
 INST = {"op": "instantiate", "binds": {"mem": 0, "table": 0, "globals": []}}
@@ -172,6 +172,27 @@ def directed(rng, tier):
     items.append({"id": "ifloop", "module": m,
                   "script": [INST] + [{"op": "call", "inst": 1, "export": "t", "args": [arg("i32", a), arg("i32", b)]}
                                       for a in (0, 1, 2, 5, 0xFF, 0x80000000) for b in (0, 7)]})
+    # (z) declared locals start at zero: groups of several locals of every type, each read before any write, after the
+    #     C stack has been dirtied by other calls; the pattern-initialising build makes a missing initialiser visible
+    groups = [["i32", 3], ["i64", 2], ["f32", 2], ["f64", 3], ["i32", 1], ["i64", 4]]
+    flat = [t for t, n in groups for _ in range(n)]
+    funcs = []
+    for j, t in enumerate(flat):
+        # rd<j>(x): returns local j (must be zero) combined with the parameter so that the call is not constant
+        conv = {"i32": [], "i64": [["i32.wrap_i64"]], "f32": [["i32.reinterpret_f32"]], "f64": [["i64.reinterpret_f64"], ["i32.wrap_i64"]]}[t]
+        funcs.append({"type": 0, "locals": [list(g) for g in groups], "body": [["local.get", 1 + j]] + conv + [["local.get", 0], ["i32.add"], ["end"]]})
+    # dirty(x): deep arithmetic on many stack slots with non-zero values
+    funcs.append({"type": 0, "locals": [["i32", 6], ["i64", 6]],
+                  "body": [x for k in range(1, 7) for x in ([["local.get", 0], ["i32.const", b32(0x5A5A5A5A + k)], ["i32.xor"], ["local.set", k]])] +
+                          [x for k in range(7, 13) for x in ([["i64.const", b64(0x7777777777777777)], ["local.set", k]])] +
+                          [["local.get", 1]] + [x for k in range(2, 7) for x in ([["local.get", k], ["i32.add"]])] + [["end"]]})
+    m = {"types": [{"p": ["i32"], "r": ["i32"]}], "funcs": funcs,
+         "exports": [{"name": "rd%d" % j, "kind": "func", "idx": j} for j in range(len(flat))] + [{"name": "dirty", "kind": "func", "idx": len(flat)}]}
+    script = [INST]
+    for j in range(len(flat)):
+        script += [{"op": "call", "inst": 1, "export": "dirty", "args": [arg("i32", 0x01010101 * (j + 1))]},
+                   {"op": "call", "inst": 1, "export": "rd%d" % j, "args": [arg("i32", 5)]}]
+    items.append({"id": "zero", "module": m, "script": script})
     return items
 
 
@@ -193,7 +214,11 @@ def main():
         if any(len(f2["body"]) != len(f["body"]) for f, f2 in zip(it["module"]["funcs"], m2["funcs"])):
             stripped.append({"id": it["id"] + "_s", "module": m2, "script": it["script"]})
     items = gen + stripped + directed(rng, tier)
-    builds = [{"name": "gcc-O1", "cc": "gcc", "cflags": ("-O1",)}]
+    # gcc-O0-pattern: automatic variables the generated code does not initialise hold 0xFE.. instead of whatever was there
+    # the validator that gates every replayed scenario accepts / rejects its control modules for the stated reasons
+    wv = tlc_ok(tlc("WasmValidCheck", timeout=300), "WasmValidCheck")
+    builds = [{"name": "gcc-O1", "cc": "gcc", "cflags": ("-O1",)},
+              {"name": "gcc-O0-pattern", "cc": "gcc", "cflags": ("-O0", "-ftrivial-auto-var-init=pattern")}]
     if tier != "quick":
         builds += [{"name": "clang-O2", "cc": "clang", "cflags": ("-O2",)}, {"name": "gcc-O0", "cc": "gcc", "cflags": ("-O0",)}]
     st, exp = machine.replay(v, items, builds, sigfn=sig)
